@@ -23,13 +23,13 @@ func assumptionsFor(prop string) []string {
 		"A3 big-integer arithmetic is mathematical: 256-bit Int / 315-bit LegacyDec overflow panics are not modelled",
 		"A4 the SDK's address.Module hash is injective on names and misses user addresses (that the three escrow addresses of an auction are address.Module(ModuleName, tag+id) with distinct tags is checked: frame.escrow-addresses-derive-from-role-and-auction-id)",
 		"A5 hook listeners do not re-enter the fundraising keeper or move escrow funds",
-		"A6 time.Time values are UTC instants (Unix nanoseconds); AddDate(0,0,d) adds d*24h",
+		"A6 time.Time values are UTC instants within the int64 Unix-nanosecond range (years 1678-2262); AddDate(0,0,d) adds d*24h",
 		"A7 x/bank, x/distribution, collections and the codec behave as the extern models say",
 		"A8 one Keeper value per store; collection handles are the Keeper's fields",
 		"A9 go/ssa is a faithful translation of the Go source",
 		"A10 induction over histories: the step case is proved (every message handler and BeginBlocker preserve the module invariant I); see A12 for the base case",
 		"A11 slices and maps hold fewer than 2^48 elements",
-		"A13 AccAddress.String() prints a spelling that AccAddressFromBech32 decodes back to the same address (the converse is NOT assumed: a valid string need not be the canonical spelling)",
+		"A13 AccAddress.String() prints a spelling that AccAddressFromBech32 decodes back to the same address (the converse is NOT assumed: a valid string need not be the canonical spelling; the empty address, which prints as the empty string, never arises: every address the module prints was parsed from a valid string or derived by hash)",
 		"A12 the state after the chain's first genesis satisfies the module invariant I (true for the empty store; Validate alone does not imply it)",
 	}
 }
